@@ -599,7 +599,7 @@ fn check_multi(c: Cfg, d: &EntDraw, rs: &[(u64, u64); 3], resp: crate::body::Bod
     let mut j = 0;
     while j < 3 {
         if j < n {
-            hdr_assert!(c, unsafe { PM_RANGES[j] } == rs[j], "C06: parts are not the requested ranges in request order");
+            hdr_assert!(c, unsafe { PM_RANGES[j] } == rs[j], "C03/C06: parts are not the requested ranges in request order");
         }
         j += 1;
     }
@@ -651,7 +651,7 @@ fn check_multi_initial(c: Cfg, d: &EntDraw, rs: &[(u64, u64); 3], body: crate::b
     while j < 3 {
         if j < n {
             let (a, b) = rs[j];
-            assert!(s.ranges[j].start == a && s.ranges[j].end == b, "C06: a part covers a different range than requested (or parts are reordered)");
+            assert!(s.ranges[j].start == a && s.ranges[j].end == b, "C03/C06: a part covers a different range than requested (or parts are reordered)");
             let first = if j == 0 { b'0' } else if j == 1 { b'1' } else { b'2' };
             assert!(s.part_headers[j].len() == 2 && s.part_headers[j][1] == first, "C06: part headers are not the prepared ones in order");
         }
@@ -734,7 +734,7 @@ pub fn stub_prepare_multipart_rec(
 
 /// The real `prepare_multipart`, alone (C01, C06, C13).
 /// SCENARIO prep_unit_*: len:u64 | 3 x (a:u64 b:u64)
-pub fn prep_unit(n: usize, incl: bool, nhdr: u8) {
+pub fn prep_unit(n: usize, incl: bool, nhdr: u8, need_multi: bool) {
     let len: u64 = kani::any();
     let mut rs = [(0u64, 0u64); 3];
     let mut ranges: Vec<Range<u64>> = Vec::with_capacity(3);
@@ -748,6 +748,10 @@ pub fn prep_unit(n: usize, incl: bool, nhdr: u8) {
             ranges.push(a..b);
         }
         j += 1;
+    }
+    if need_multi {
+        // range sets for which serve() must answer multipart: counterexamples replay end to end
+        kani::assume(oracle::multipart_required(&rs[..n], len));
     }
     let include = if incl {
         let mut h = http::header::HeaderMap::new();
@@ -794,30 +798,34 @@ pub fn prep_unit(n: usize, incl: bool, nhdr: u8) {
             assert!(sn.count[S_CONTENT_LENGTH] == 1 && parse_whole_decimal(sn.val[S_CONTENT_LENGTH].unwrap()) == Some(body_len), "C01: Content-Length of the multipart response is not its body length");
             assert!(sn.count[S_CONTENT_TYPE] == 1 && bytes_eq(sn.val[S_CONTENT_TYPE].unwrap(), b"multipart/byteranges; boundary=B"), "C06: Content-Type is not multipart/byteranges with the boundary used in the body");
             assert!(sn.count[S_CONTENT_RANGE] == 0, "C06: top-level Content-Range on a multipart response");
-            kani::cover!(true, "multipart prepared");
             std::mem::forget(parts);
             std::mem::forget(ph);
         }
     }
     std::mem::forget(ranges);
+    kani::cover!(true, "prepare_multipart compared with the framing model");
 }
 
 macro_rules! prep_harness {
-    ($name:ident, $n:expr, $incl:expr, $nhdr:expr) => {
+    ($name:ident, $n:expr, $incl:expr, $nhdr:expr, $need:expr) => {
         #[kani::proof]
         #[kani::unwind(14)]
         #[kani::stub(<u64 as std::fmt::Display>::fmt, hc::stub_u64_display)]
         pub fn $name() {
-            prep_unit($n, $incl, $nhdr)
+            prep_unit($n, $incl, $nhdr, $need)
         }
     };
 }
-prep_harness!(prep_unit_n2_noincl, 2, false, 0);
-prep_harness!(prep_unit_n2_h0, 2, true, 0);
-prep_harness!(prep_unit_n2_h1, 2, true, 1);
-prep_harness!(prep_unit_n2_h2, 2, true, 2);
-prep_harness!(prep_unit_n3_h1, 3, true, 1);
-prep_harness!(prep_unit_n3_noincl, 3, false, 0);
+// `_req`: multipart required (replayable); `_any`: every range set (includes the 64-bit overflow)
+prep_harness!(prep_unit_n2_noincl_req, 2, false, 0, true);
+prep_harness!(prep_unit_n2_noincl_any, 2, false, 0, false);
+prep_harness!(prep_unit_n2_h0_req, 2, true, 0, true);
+prep_harness!(prep_unit_n2_h0_any, 2, true, 0, false);
+prep_harness!(prep_unit_n3_noincl_req, 3, false, 0, true);
+prep_harness!(prep_unit_n3_noincl_any, 3, false, 0, false);
+// (with entity headers in the parts the instances exhaust 24 GB: not registered)
+prep_harness!(prep_unit_n2_h1_req, 2, true, 1, true);
+prep_harness!(prep_unit_n2_h2_req, 2, true, 2, true);
 
 macro_rules! serve_harness_nomulti {
     ($name:ident, $cfg:expr) => {
